@@ -384,7 +384,47 @@ def same_stem_stream(ctx, n):
             shutil.rmtree(d, ignore_errors=True)
 
 
+def hidden_entries_stream(ctx, n):
+    """Hidden directories and dot-files are directories and files: a .py file below proj/.tools/ or named .gen.py is scanned like
+    any other (the dot of its name is one more dot in the module name), its import statements are imports of the architecture."""
+    import shutil
+    from pytestarch import get_evaluable_architecture
+    for it in range(n):
+        rng = ctx.rng
+        a, b = rng.sample(scan.POOL, 2)
+        hid = rng.choice([".tools", ".ci", "._gen"])
+        d = common.scratch_dir()
+        try:
+            root = d / "proj"
+            (root / a).mkdir(parents=True)
+            (root / hid).mkdir()
+            (root / (b + ".py")).write_text("")
+            (root / a / "m.py").write_text("")
+            (root / a / ".gen.py").write_text(f"import proj.{b}\n")
+            (root / hid / "t.py").write_text(f"from proj.{a} import m\n")
+            try:
+                arch = get_evaluable_architecture(str(root), str(root))
+                ns, es = rules.observe(arch, [], [])
+                res = ("OK", set(ns), set(es))
+            except Exception as e:  # noqa: BLE001
+                res = ("ERR", type(e).__name__ + ": " + str(e)[:200])
+            ctx.evaluations += 1
+            ctx.stat("hidden_directory_and_dot_file")
+            must_m = {f"proj.{a}..gen", f"proj.{hid}.t", f"proj.{a}.m", f"proj.{b}"}
+            must_e = {(f"proj.{a}..gen", f"proj.{b}"), (f"proj.{hid}.t", f"proj.{a}.m")}
+            case = dict(tree=[f"proj/{a}/.gen.py", f"proj/{hid}/t.py", f"proj/{a}/m.py", f"proj/{b}.py"])
+            if res[0] != "OK":
+                ctx.violation(dict(case, error=res[1]), f"scan of a project with a hidden directory / dot-file failed: {res[1]}", {"kind": "scan_error"})
+            elif not must_m <= res[1] or not must_e <= res[2]:
+                ctx.violation(dict(case, modules_missing=sorted(must_m - res[1]), imports_missing=sorted(must_e - res[2])),
+                              "python files below a hidden directory / named with a leading dot: modules or import statements are lost", {"kind": "hidden_entries"})
+            ctx.mark_nontrivial(("hidden", a, b, hid))
+        finally:
+            shutil.rmtree(d, ignore_errors=True)
+
+
 def run(ctx: Ctx):
+    hidden_entries_stream(ctx, 6 if ctx.quick else 100)
     same_stem_stream(ctx, 12 if ctx.quick else 300)
     rescan_after_edit(ctx, 40 if ctx.quick else 1000)
     pos = [p for p in grammar_positions() if p[0] not in ("Interactive",)] + EXTRA_POSITIONS
